@@ -176,7 +176,89 @@ pub fn c07(cx: &Ctx) -> (Vec<Violation>, Cover) {
             v.push(Violation::new("C07", "C07/state-dropped-twice", format!("captured state of instance {inst} dropped {} times", info.canary_drops.len()), info.canary_drops[1]));
         }
     }
+    pending_despawn_reactions(a, &mut v, &mut cov);
     (v, cov)
+}
+
+/// "... or a despawn reaction for it is pending": from the moment the framework applies a despawn reaction addressed to
+/// a reactor (hook `Apply{kind: Despawn}`) until that reaction has started (or, for a direct command, was refused), the
+/// reactor must exist and keep its state unless the program despawned it explicitly. Observed where its absence shows:
+/// the runner refusing a command for it with `EntityMissing`, and the drop of its canary.
+fn pending_despawn_reactions(a: &Analysis, v: &mut Vec<Violation>, cov: &mut Cover) {
+    use std::collections::HashMap;
+    let by_ent: HashMap<u64, Inst> = a.insts.iter().enumerate().map(|(i, s)| (s.ent, i)).collect();
+    let explicit_before = |inst: Inst, p: usize| a.cmds.iter().any(|c| matches!(c.act, RAct::DespawnSys { inst: i } if i == inst) && c.pre.map(|x| x < p).unwrap_or(false));
+    // pending[inst] = sources of despawn reactions applied but not yet started
+    let mut pending: HashMap<Inst, Vec<u64>> = HashMap::new();
+    let mut reported: Vec<Inst> = vec![];
+    for (p, ev) in a.tr.iter().enumerate() {
+        match ev {
+            Ev::Hook(HookEv::Apply { target, kind: HKind::Despawn(e) }) => {
+                let Some(inst) = by_ent.get(target).copied() else { continue };
+                if a.insts[inst].kind == SysKindTag::Once {
+                    continue;
+                }
+                pending.entry(inst).or_default().push(*e);
+                cov.count("despawn_reactions_tracked_while_pending", 1);
+            }
+            Ev::RunStart { inst, obs, .. } => {
+                let Some(q) = pending.get_mut(inst) else { continue };
+                if q.is_empty() {
+                    continue;
+                }
+                // the run says which despawn it reacts to; a run that reads nothing consumes the oldest entry (what it
+                // reads is C03's business)
+                let blind = obs.desp.is_none() && obs.bc.iter().all(|x| x.is_none()) && obs.ee.iter().all(|x| x.is_none()) && obs.se.iter().all(|x| x.is_none());
+                if let Some(k) = obs.desp.and_then(|e| q.iter().position(|x| *x == e)) {
+                    q.remove(k);
+                    cov.count("pending_despawn_reactions_started", 1);
+                } else if blind && obs.ins.iter().all(|x| x.is_none()) && obs.mu.iter().all(|x| x.is_none()) && obs.rem.iter().all(|x| x.is_none()) {
+                    q.remove(0);
+                }
+            }
+            Ev::Hook(HookEv::Abort { target, reason }) => {
+                let Some(inst) = by_ent.get(target).copied() else { continue };
+                let Some(q) = pending.get_mut(&inst) else { continue };
+                if q.is_empty() {
+                    continue;
+                }
+                if matches!(reason, HAbort::EntityMissing) && !explicit_before(inst, p) && !reported.contains(&inst) {
+                    reported.push(inst);
+                    v.push(Violation::new(
+                        "C07",
+                        format!("C07/gone-while-despawn-reaction-pending/{:?}", a.insts[inst].mode),
+                        format!("a command for instance {inst} was refused at {p} because the reactor no longer exists, while {} despawn reaction(s) for it were pending (sources {:?}) and nothing despawned it explicitly", q.len(), q),
+                        p,
+                    ));
+                }
+                // the refused command may have been one of them
+                q.remove(0);
+            }
+            // a reaction that is discarded at the end of the tree no longer holds anything
+            Ev::Hook(HookEv::Discard { target }) => {
+                if let Some(q) = by_ent.get(target).and_then(|i| pending.get_mut(i)) {
+                    if !q.is_empty() {
+                        q.remove(0);
+                    }
+                }
+            }
+            // nothing is pending between trees
+            Ev::Quiescent { .. } => pending.clear(),
+            Ev::CanaryDrop { inst } => {
+                let Some(q) = pending.get(inst) else { continue };
+                if !q.is_empty() && !explicit_before(*inst, p) && !reported.contains(inst) && p < a.end_pos {
+                    reported.push(*inst);
+                    v.push(Violation::new(
+                        "C07",
+                        format!("C07/state-dropped-while-despawn-reaction-pending/{:?}", a.insts[*inst].mode),
+                        format!("the captured state of instance {inst} was dropped at {p} while {} despawn reaction(s) for it were pending (sources {:?})", q.len(), q),
+                        p,
+                    ));
+                }
+            }
+            _ => {}
+        }
+    }
 }
 
 pub fn c13(cx: &Ctx) -> (Vec<Violation>, Cover) {
